@@ -19,6 +19,7 @@ type xStateSpec struct {
 	Prims  map[string]xStPrim  // library calls: callee text -> primitive
 	Calls  map[string]string   // methods / helpers translated as units: callee text -> unit name
 	Errs   map[string]bool     // calls that yield a non-nil error whatever their arguments (fmt.Errorf)
+	Object string              // the state is this parameter (a pointer to the wrapping type) instead of the receiver
 }
 type xStField struct{ Get, Set string }
 
@@ -109,6 +110,11 @@ func (x *xl) stCall(e ast.Expr, g *xGuards) *stInv {
 	}
 	if u, found := sp.Calls[f]; found {
 		fd := x.xpkg.findFunc(x.unitFunc(u))
+		if dir := x.unitDir(u); fd == nil && dir != "" && x.ld != nil { // a unit of another package
+			if p, err := x.ld.load(dir); err == nil {
+				fd = p.findFunc(x.unitFunc(u))
+			}
+		}
 		if fd == nil {
 			x.fail(c, "unit %s: function not found", u)
 		}
@@ -167,6 +173,14 @@ func (x *xl) unitFunc(name string) string {
 	for i := range x.units {
 		if x.units[i].Name == name {
 			return x.units[i].Func
+		}
+	}
+	return ""
+}
+func (x *xl) unitDir(name string) string {
+	for i := range x.units {
+		if x.units[i].Name == name {
+			return x.units[i].Dir
 		}
 	}
 	return ""
@@ -243,8 +257,11 @@ func (x *xl) stField(e ast.Expr) (xStField, bool) {
 // loopStmt: `for { body }` as the first statement of a unit with fuel: the unit calls itself (with the fuel left)
 // for the next iteration; break leaves to the statements after the loop.
 func (x *xl) loopStmt(s *ast.ForStmt, rest func() string, d int) string {
+	if x.unit.Fuel && x.unit.Group == "" && !x.inLoop { // anywhere in a unit with fuel: go_loop, at most fuel rounds
+		return x.genLoop(s, rest, d)
+	}
 	if !x.unit.Fuel || x.unit.Group == "" || len(x.body) == 0 || x.body[0] != ast.Stmt(s) || x.inLoop {
-		x.fail(s, "`for { }` is in the subset only as the first statement of a unit with fuel that belongs to a group")
+		x.fail(s, "`for { }` is in the subset only in a unit with fuel (as the first statement when the unit belongs to a group)")
 	}
 	ast.Inspect(s.Body, func(n ast.Node) bool {
 		if b, ok := n.(*ast.BranchStmt); ok && (b.Tok != token.BREAK || b.Label != nil) {
@@ -276,4 +293,32 @@ func (x *xl) loopStmt(s *ast.ForStmt, rest func() string, d int) string {
 	again := []string{x.unit.Name, "fuel"}
 	again = append(again, x.paramNames...)
 	return "go_iter (" + body + ")" + xInd(d) + "(" + bind + xInd(d) + rest() + ")" + xInd(d) + "(" + bind + strings.Join(again, " ") + ")"
+}
+
+// genLoop: `for { body }` with break / continue / return, run for at most fuel rounds (GoSem.go_loop): the body falls
+// through or continues (Next state: next round), breaks (Return (inl state)) or returns (Return (inr results)).
+func (x *xl) genLoop(s *ast.ForStmt, rest func() string, d int) string {
+	ast.Inspect(s.Body, func(n ast.Node) bool {
+		if b, ok := n.(*ast.BranchStmt); ok && ((b.Tok != token.BREAK && b.Tok != token.CONTINUE) || b.Label != nil) {
+			x.fail(b, "%s in a `for { }` loop is outside the subset", b.Tok)
+		}
+		switch n.(type) {
+		case *ast.ForStmt, *ast.RangeStmt, *ast.SwitchStmt, *ast.SelectStmt:
+			if n != ast.Node(s) {
+				ast.Inspect(n, func(m ast.Node) bool {
+					if b, ok := m.(*ast.BranchStmt); ok {
+						x.fail(b, "break / continue inside a nested statement is outside the subset")
+					}
+					return true
+				})
+			}
+		}
+		return true
+	})
+	vs := x.assigned(s.Body.List)
+	term, _, bind := x.state(s, vs)
+	x.inLoop, x.loopCont, x.loopState = true, true, term
+	body := x.block(s.Body.List, "Next "+term, d+1)
+	x.inLoop, x.loopCont = false, false
+	return "bindc (go_loop fuel (" + bind + xInd(d+1) + body + ") " + term + ")" + xInd(d) + "(" + bind + xInd(d) + rest() + ")"
 }
